@@ -64,3 +64,13 @@ lib.MODULE_CONSTS['Response'] = VFunc('class', 'HTTPResponse')
 Assumed('wpull/namevalue.py', 'NameValueRecord.__delitem__', {'self': TObj('NameValueRecord'), 'name': TStr()}, modifies=['self.map', 'self.count'],
         ensures=['not (norm(name) in self.map)', 'forall_str(lambda k: implies(k != norm(name), (k in self.map) == (k in old(self.map)) and implies(k in self.map, self.map[k] == old(self.map)[k])))'],
         raises={'KeyError': ['not (norm(name) in old(self.map))']})
+
+_hwp = z3.Function('hostname_with_port', z3.IntSort(), z3.StringSort())
+SPECFUNS['hostname_with_port'] = lambda ex, st, u: VStr(_hwp(u.term))
+Assumed('wpull/protocol/http/request.py', 'Request.prepare_for_send', {'self': TObj('HTTPRequest'), 'full_url': TBool()}, name='HTTPRequest.prepare_for_send',
+        defaults={'full_url': False}, requires=['self._url_info is not None', 'truthy(self._url)', 'truthy(self.method)', 'truthy(self.version)'], modifies=['self.fields.map', 'self.fields.count', 'self.resource_path'],
+        ensures=['"Host" in self.fields.map',
+                 'implies(not ("Host" in old(self.fields.map)), self.fields.map["Host"] == hostname_with_port(self._url_info))',
+                 'implies(not ("Host" in old(self.fields.map)), self.fields.count["Host"] == 1)',
+                 'implies(not ("Authorization" in old(self.fields.map)), not ("Authorization" in self.fields.map)) and implies(not ("Cookie" in old(self.fields.map)), not ("Cookie" in self.fields.map))'],
+        raises={'AssertionError': []}, note='verified against its body under C16 (specs/request.py)')
